@@ -26,6 +26,7 @@ ASSUMPTIONS = [
     "max_iter) judges only feasibility and cost bookkeeping of a returned flow, never optimality or INFEASIBLE",
     "termination = return within a step budget of >= 50x the largest step count seen on the unchanged tree for the stratum",
 ]
+QUICK_SCALE = 2.5  # quick-tier multiplier (idle 16-core timing: ~10 s at scale 1)
 STRATA = [
     ("simple", 1400, 24000),
     ("parallel", 1200, 20000),
